@@ -39,19 +39,23 @@ Definition outcome_of (c : ctx) (r : res message) : outcome :=
 Fixpoint nodupN (l : list N) : bool :=
   match l with [] => true | x :: r => negb (memN x r) && nodupN r end.
 
-(* a trait table and (recursively) its group tables:
-     fnums distinct, below 2^16 and known to the field table; every group trait has its nested
-     table; [elem] tables (group elements): no trait is born present, all carry the position
-     bit, none is automatic *)
+(* what wf_table asks of one trait of a table whose nested classes are [subs]:
+     fnum below 2^16; the field table knows it with the same type; a group trait has its nested
+     table and an int type (the count); in [elem] tables (group elements) no trait is born
+     present, all carry the position bit, none is automatic *)
+Definition trait_ok (c : ctx) (subs : list (N * gmeta)) (elem : bool) (tr : trait) : bool :=
+  (t_fnum tr <? 65536) &&
+  match find_be (c_fields c) (t_fnum tr) with Some ty => ty =? t_ftype tr | None => false end &&
+  (negb (t_group tr) ||
+   (match find_sub subs (t_fnum tr) with Some _ => true | None => false end && is_int_type (t_ftype tr))) &&
+  (negb elem || (negb (t_present tr) && t_haspos tr && negb (t_auto tr))).
+
+(* a trait table and (recursively) its group tables: fnums distinct, every trait ok *)
 Fixpoint wf_table (c : ctx) (elem : bool) (g : gmeta) {struct g} : bool :=
   match g with
   | GM ts subs _ =>
     nodupN (map t_fnum ts) &&
-    forallb (fun tr =>
-      (t_fnum tr <? 65536) &&
-      match find_be (c_fields c) (t_fnum tr) with Some _ => true | None => false end &&
-      (negb (t_group tr) || match find_sub subs (t_fnum tr) with Some _ => true | None => false end) &&
-      (negb elem || (negb (t_present tr) && t_haspos tr && negb (t_auto tr)))) ts &&
+    forallb (trait_ok c subs elem) ts &&
     (fix all (l : list (N * gmeta)) : bool :=
        match l with [] => true | (_, sg) :: r => wf_table c true sg && all r end) subs
   end.
@@ -63,13 +67,14 @@ Definition wf_body (c : ctx) (g : gmeta) : bool :=
   forallb (fun tr => negb (t_present tr) && negb (t_auto tr)) (g_traits g).
 
 (* header / trailer: the constructor's fields (8, 9, 35 / 10) are exactly the automatic traits,
-   they are plain (no group, no Length) fields of the table at distinct positions, and nothing
-   else is born present *)
+   they are plain (no group, not mandatory, no Length but BodyLength) fields of the table, and
+   nothing else is born present *)
 Definition init_ok (g : gmeta) (init : list (N * (N * list N))) : bool :=
   let fs := map (fun e => fst (snd e)) init in
   nodupN fs &&
   forallb (fun f => match find_trait (g_traits g) f with
-                    | Some tr => negb (t_group tr) && negb (t_ftype tr =? ft_Length) || (f =? Common_BodyLength) && negb (t_group tr)
+                    | Some tr => negb (t_group tr) && negb (t_mand tr) &&
+                                 (negb (t_ftype tr =? ft_Length) || (f =? Common_BodyLength))
                     | None => false end) fs &&
   forallb (fun tr => (eqb (t_auto tr) (memN (t_fnum tr) fs)) &&
                      (negb (t_present tr) || memN (t_fnum tr) fs)) (g_traits g).
@@ -79,4 +84,5 @@ Definition wf_ctx (c : ctx) : bool :=
   init_ok (c_header c) (c_hdr_init c) && init_ok (c_trailer c) (c_trl_init c) &&
   list_eqb (map (fun e => fst (snd e)) (c_hdr_init c)) [Common_BeginString; Common_BodyLength; Common_MsgType] &&
   list_eqb (map (fun e => fst (snd e)) (c_trl_init c)) [Common_CheckSum] &&
+  forallb (fun tr => negb (t_group tr)) (g_traits (c_trailer c)) &&      (* no repeating group in the trailer *)
   forallb (fun md => wf_body c (md_meta md)) (c_msgs c).
